@@ -2140,6 +2140,7 @@ package ucfg
 //@ func raiseInvalidTopLevelType :: v, meta -> result
 //@ props C14 C07
 //@ sweep
+//@ at-call (Value).Type requires rvValid(v)
 //@ rvwrites nothing
 //@ ensures [typed] result != nil && typeof(result) == baseError && result.(baseError).class == ErrConfig && result.(baseError).reason == ErrTypeMismatch
 
